@@ -20,7 +20,7 @@ COMPONENTS = {
 RULE = ("plans = coin class x which count or length crosses which compact-size boundary x amounts; non-trivial iff a count "
         "or length >= 0xfd is on the wire")
 FAULT_KINDS = []
-PROBES = ["wire_tx_witness", "wire_tx_witness_only_empty_items", "wire_tx_unspents", "wire_big_inputs", "wire_big_outputs", "wire_big_out_script", "wire_big_in_script", "wire_big_witness_item",
+PROBES = ["wire_tx_null_prevout", "wire_tx_witness", "wire_tx_witness_only_empty_items", "wire_tx_unspents", "wire_big_inputs", "wire_big_outputs", "wire_big_out_script", "wire_big_in_script", "wire_big_witness_item",
           "wire_big_witness_count", "inputs>=253", "n=0xfc", "n=0xfd", "n=0xffff", "n=0x10000"]
 
 
@@ -36,7 +36,7 @@ def gen_plan(rng, tier, index, config=None):
             shape = r.weighted([("none", 4), ("empty1", 1), ("empty2", 1), ("mixed", 2), ("full", 3), ("big", 0.3)])
             wit = {"none": [], "empty1": [""], "empty2": ["", ""], "mixed": ["", r.bytes(r.between(1, 40)).hex(), ""],
                    "full": [r.bytes(72).hex(), r.bytes(33).hex()], "big": [r.bytes(600).hex()]}[shape]
-            ins.append({"prev": r.bytes(32).hex(), "idx": r.pick([0, 1, 0xFFFFFFFF, r.bits(32)]), "script": r.bytes(r.pick([0, 0, 23, 107])).hex(),
+            ins.append({"prev": "00" * 32 if r.chance(0.08) else r.bytes(32).hex(), "idx": r.pick([0, 1, 0xFFFFFFFF, r.bits(32)]), "script": r.bytes(r.pick([0, 0, 23, 107])).hex(),
                         "seq": r.pick([0xFFFFFFFF, 0, r.bits(32)]), "witness": wit})
         outs = [{"value": r.pick([0, 1, 546, (1 << 64) - 1, r.bits(64)]), "script": r.bytes(r.pick([0, 22, 25, 34])).hex()}
                 for _k in range(r.weighted([(0, 1), (1, 4), (2, 3)]))]
@@ -67,6 +67,8 @@ def execute(plan, ctx):
             ctx.nontrivial = True
         if st.get("op") == "wire_tx" and any(i["witness"] for i in st["tx"]["ins"]):
             ctx.nontrivial = True
+        if st.get("op") == "wire_tx" and any(i["prev"] == "00" * 32 for i in st["tx"]["ins"]):
+            ctx.probe("wire_tx_null_prevout")
     cs.execute(plan, ctx)
 
 
